@@ -137,6 +137,127 @@ theorem lexOne_greater (rest : List Char) (h : ∀ c r, rest = c :: r → c ≠ 
     obtain ⟨h1, h2⟩ := h c r rfl
     simp [lexOne, fixedOps, firstPrefix, startsWith, Ne.symm h1, Ne.symm h2]
 
+/-! ### plain identifiers -/
+
+theorem start_not_digit (c : Char) (hc : isIdentStart c = true) : isDigit c = false := by
+  cases hd : isDigit c with
+  | false => rfl
+  | true =>
+    exfalso
+    simp only [isIdentStart, isLetter, isDigit, Bool.or_eq_true, Bool.and_eq_true, decide_eq_true_eq, beq_iff_eq] at hc hd
+    simp only [Char.le_def, UInt32.le_iff_toNat_le] at hc hd
+    have e0 : ('0' : Char).val.toNat = 48 := by decide
+    have e9 : ('9' : Char).val.toNat = 57 := by decide
+    have ea : ('a' : Char).val.toNat = 97 := by decide
+    have ez : ('z' : Char).val.toNat = 122 := by decide
+    have eA : ('A' : Char).val.toNat = 65 := by decide
+    have eZ : ('Z' : Char).val.toNat = 90 := by decide
+    rcases hc with (((⟨h1, h2⟩ | ⟨h1, h2⟩) | h) | h) | h
+    · omega
+    · omega
+    · subst h; revert hd; decide
+    · subst h; revert hd; decide
+    · subst h; revert hd; decide
+
+theorem ne_of_start {c : Char} (hc : isIdentStart c = true) (d : Char) (hd : isIdentStart d = false) : d ≠ c := by
+  intro h; subst h; rw [hc] at hd; cases hd
+
+/-- **A plain identifier lexes to one identifier token**: an identifier-start character followed by
+    identifier characters, up to a character that cannot continue an identifier, unless the lexer's
+    keyword rules claim its beginning (`and`/`or`/`not`/`if`/`else` followed by a non-word character,
+    or the literals `True`/`False` as a prefix) -/
+theorem lexOne_plain (c : Char) (a rest : List Char) (hc : isIdentStart c = true)
+    (ha : ∀ x ∈ a, isIdentChar x = true) (hb : ∀ x r, rest = x :: r → isIdentChar x = false)
+    (hk : firstKeyword keywords (c :: a ++ rest) = none)
+    (hT : firstPrefix ["True", "False"] (c :: a ++ rest) = none) :
+    lexOne (c :: a ++ rest) = some (.ident (String.ofList (c :: a)), rest) := by
+  have hsp : spanP isIdentChar (a ++ rest) = (a, rest) := spanP_all isIdentChar a rest ha hb
+  have n := ne_of_start hc
+  have h1 : firstPrefix fixedOps (c :: a ++ rest) = none := by
+    simp [fixedOps, firstPrefix, startsWith, n '=' (by decide), n '!' (by decide), n '<' (by decide), n '>' (by decide)]
+  have hnd := start_not_digit c hc
+  have h3 : lexNumber (c :: a ++ rest) = none := by
+    simp [lexNumber, spanP, hnd, Ne.symm (n '.' (by decide))]
+  have h4 : firstPrefix lateOps (c :: a ++ rest) = none := by
+    simp [lateOps, firstPrefix, startsWith, n '+' (by decide), n '-' (by decide), n '*' (by decide), n '/' (by decide),
+      n '%' (by decide), n '&' (by decide), n '|' (by decide), n '~' (by decide), n '^' (by decide), n '(' (by decide),
+      n ')' (by decide), n '[' (by decide), n ']' (by decide)]
+  have hid : lexIdent (c :: a ++ rest) = some (c :: a, rest) := by
+    simp [lexIdent, hc, hsp]
+  have hk' : firstKeyword keywords (c :: (a ++ rest)) = none := hk
+  have hT' : firstPrefix ["True", "False"] (c :: (a ++ rest)) = none := hT
+  unfold lexOne
+  simp only [List.cons_append] at h1 h3 h4 hid ⊢
+  rw [h1, hk', h3, h4, hT', hid]
+
+theorem startsWith_some : ∀ (p s r : List Char), startsWith p s = some r ↔ s = p ++ r
+  | [], s, r => by simp [startsWith]
+  | _ :: _, [], r => by simp [startsWith]
+  | x :: p, c :: s, r => by
+    simp only [startsWith]
+    split
+    · rename_i h; subst h
+      rw [startsWith_some p s r]; simp
+    · rename_i h
+      simp only [reduceCtorEq, List.cons_append, List.cons.injEq, false_iff, not_and]
+      intro h'; exact absurd h'.symm h
+
+/-- one keyword does not claim the beginning of a word that is not that keyword -/
+theorem keyword_skipped (k w rest : List Char) (hkc : ∀ x ∈ k, isIdentChar x = true)
+    (hw : ∀ x ∈ w, isWord x = true) (hb : ∀ x r, rest = x :: r → isIdentChar x = false) (hne : w ≠ k) :
+    ∀ r, startsWith k (w ++ rest) = some r → boundary r = false := by
+  intro r h
+  rw [startsWith_some] at h
+  rcases List.append_eq_append_iff.mp h with ⟨a', h1, h2⟩ | ⟨a', h1, h2⟩
+  · -- k = w ++ a': the keyword is longer than the word, so `rest` continues it with an identifier character
+    cases a' with
+    | nil => simp at h1; exact absurd h1.symm hne
+    | cons x a'' =>
+      have hx : isIdentChar x = true := hkc x (by rw [h1]; simp)
+      have := hb x (a'' ++ r) (by rw [h2]; rfl)
+      rw [hx] at this; cases this
+  · -- w = k ++ a': the word goes on with a word character: no boundary
+    cases a' with
+    | nil => simp at h1; exact absurd h1 hne
+    | cons x a'' =>
+      have hx : isWord x = true := hw x (by rw [h1]; simp)
+      rw [h2]
+      simp [boundary, hx]
+
+theorem firstKeyword_none : ∀ (ks : List String) (w rest : List Char),
+    (∀ k ∈ ks, ∀ x ∈ k.toList, isIdentChar x = true) → (∀ x ∈ w, isWord x = true) →
+    (∀ x r, rest = x :: r → isIdentChar x = false) → (∀ k ∈ ks, w ≠ k.toList) →
+    firstKeyword ks (w ++ rest) = none
+  | [], _, _, _, _, _, _ => rfl
+  | k :: ks, w, rest, hkc, hw, hb, hne => by
+    have ih := firstKeyword_none ks w rest (fun k' hk' => hkc k' (List.mem_cons_of_mem _ hk')) hw hb
+      (fun k' hk' => hne k' (List.mem_cons_of_mem _ hk'))
+    simp only [firstKeyword]
+    cases hs : startsWith k.toList (w ++ rest) with
+    | none => exact ih
+    | some r =>
+      have := keyword_skipped k.toList w rest (hkc k List.mem_cons_self) hw hb (hne k List.mem_cons_self) r hs
+      simp [this, ih]
+
+theorem keywords_ident_chars : ∀ k ∈ keywords, ∀ x ∈ k.toList, isIdentChar x = true := by decide
+
+/-- a word (letters, digits, underscores, not starting with a digit) that is not a keyword and does not
+    begin with `True` / `False` lexes to ONE identifier token carrying exactly that word -/
+theorem word_lexes_to_identifier (c : Char) (a rest : List Char) (hc : isIdentStart c = true)
+    (hw : ∀ x ∈ c :: a, isWord x = true) (hb : ∀ x r, rest = x :: r → isIdentChar x = false)
+    (hnk : ∀ k ∈ keywords, c :: a ≠ k.toList)
+    (hT : firstPrefix ["True", "False"] (c :: a ++ rest) = none) :
+    lexOne (c :: a ++ rest) = some (.ident (String.ofList (c :: a)), rest) := by
+  apply lexOne_plain c a rest hc ?_ hb ?_ hT
+  · intro x hx
+    have := hw x (List.mem_cons_of_mem _ hx)
+    simp only [isWord, isIdentChar, isIdentStart, Bool.or_eq_true, beq_iff_eq] at this ⊢
+    rcases this with (h | h) | h
+    · exact Or.inl (Or.inl (Or.inl (Or.inl h)))
+    · exact Or.inr h
+    · exact Or.inl (Or.inl (Or.inl (Or.inr h)))
+  · exact firstKeyword_none keywords (c :: a) rest keywords_ident_chars hw hb hnk
+
 /-! ### the removal pass is the renaming by `unquote` -/
 
 mutual
